@@ -61,6 +61,13 @@ Proof.
   - destruct (lookup st src) as [a p]. cbn [fst].
     rewrite !lookup_update_other by intuition. reflexivity.
   - destruct (lookup st o) as [a p]. reflexivity.
+  - cbn [fst]. apply lookup_update_other. intuition.
+  - destruct (lookup st src) as [sa sbs].
+    destruct (dec_into (fst (lookup st o)) sbs) as [[a r]|e]; cbn [fst]; [|reflexivity].
+    rewrite !lookup_update_other by intuition. reflexivity.
+  - destruct (lookup st o) as [a p]. destruct (enc_apdu a p) as [bs|e]; [|reflexivity].
+    destruct (lookup st dst) as [da dd]. cbn [fst]. apply lookup_update_other. intuition.
+  - reflexivity.
 Qed.
 
 (* so: whatever operations ran before on whatever objects, decoding octets into an object that
@@ -80,4 +87,52 @@ Lemma decode_payload_from_octets st o bs a r :
 Proof.
   intros D. cbn [step]. rewrite D. cbn [fst update lookup]. rewrite Nat.eqb_refl. split; [reflexivity|].
   apply dec_into_inv in D as (a0 & D & _). exact (dec_shape bs a0 r D).
+Qed.
+
+(* ---- round 3: the typed classes and sources / targets that are used again *)
+Lemma lookup_update_same st o v : lookup (update st o v) o = v.
+Proof. cbn [update lookup]. rewrite Nat.eqb_refl. reflexivity. Qed.
+
+(* X.decode(apdu) into a typed object that was used before: whatever it held (attributes, payload)
+   is replaced by the source's attributes and payload; the source is drained *)
+Lemma typed_decode_replaces st dst src : dst <> src ->
+  lookup (fst (step st (OpTyped dst src))) dst = lookup st src /\
+  lookup (fst (step st (OpTyped dst src))) src = (fst (lookup st src), []).
+Proof.
+  intros H. cbn [step]. destruct (lookup st src) as [a p]. cbn [fst].
+  rewrite lookup_update_same. split; [reflexivity|].
+  rewrite lookup_update_other by congruence. apply lookup_update_same.
+Qed.
+
+(* apdu.decode(pdu) with pdu an object of the store: the target holds header + payload, the source is empty *)
+Lemma decode_from_drains st o src a r : o <> src ->
+  dec_into (fst (lookup st o)) (snd (lookup st src)) = Ok (a, r) ->
+  lookup (fst (step st (OpDecodeFrom o src))) o = (a, r) /\
+  lookup (fst (step st (OpDecodeFrom o src))) src = (fst (lookup st src), []).
+Proof.
+  intros H D. cbn [step]. destruct (lookup st src) as [sa sbs]. cbn [snd fst] in *. rewrite D. cbn [fst].
+  rewrite lookup_update_same. split; [reflexivity|].
+  rewrite lookup_update_other by congruence. apply lookup_update_same.
+Qed.
+
+(* relay: decode a frame out of a PDU object, encode the APDU back into that same (consumed) PDU:
+   the PDU holds exactly the frame again, for every header and every payload, whatever the
+   decoding object held before *)
+Lemma relay_roundtrip st o src h p : o <> src -> wf_hdr h = true ->
+  snd (lookup st src) = spec20_1 h ++ p ->
+  let st1 := fst (step st (OpDecodeFrom o src)) in
+  let st2 := fst (step st1 (OpEncodeTo o src)) in
+  lookup st1 o = (overlay (fst (lookup st o)) (to_apci h), p) /\
+  snd (lookup st1 src) = [] /\
+  snd (lookup st2 src) = spec20_1 h ++ p /\
+  lookup st2 o = lookup st1 o.
+Proof.
+  intros H W S st1 st2.
+  destruct (reused_object_roundtrip (fst (lookup st o)) h p W) as [D E].
+  rewrite <- S in D.
+  destruct (decode_from_drains st o src _ _ H D) as [L1 L2].
+  fold st1 in L1, L2. split; [exact L1|]. split; [rewrite L2; reflexivity|].
+  subst st2. cbn [step]. rewrite L1, E, L2. cbn [fst snd].
+  rewrite lookup_update_same. split; [reflexivity|].
+  rewrite lookup_update_other by congruence. exact L1.
 Qed.
